@@ -72,6 +72,22 @@ def adversarial(name, p):
         return b"<" + i32(1) + b"[" + i32(0)
     if name == "null-in-odd-places":
         return b"(" + i32(3) + b"0N0"
+    if name == "list-containing-itself":
+        return bytes([ord("[") | 0x80]) + i32(2) + b"r" + i32(0) + b"N"
+    if name == "dict-containing-itself":
+        return bytes([ord("{") | 0x80]) + b"i\x01\x00\x00\x00" + b"r" + i32(0) + b"0"
+    if name in ("tuple-dag", "tuple-dag-in-set", "tuple-dag-as-dict-key"):
+        # level 0 = (N, N); level i = (level i-1, level i-1) by back-reference: 2^depth leaves if walked naively
+        depth = max(2, min(n, 60))
+        out = b"(" + i32(depth + (1 if name != "tuple-dag" else 0))
+        out += bytes([ord("(") | 0x80]) + i32(2) + b"NN"
+        for i in range(1, depth):
+            out += bytes([ord("(") | 0x80]) + i32(2) + b"r" + i32(i - 1) + b"r" + i32(i - 1)
+        if name == "tuple-dag-in-set":
+            out += b"<" + i32(1) + b"r" + i32(depth - 1)
+        elif name == "tuple-dag-as-dict-key":
+            out += b"{" + b"r" + i32(depth - 1) + b"N" + b"0"
+        return out
     if name == "float-text-garbage":
         return b"f\x05nan!!" + b"x\x03abc\x031e5"
     return b"?"
@@ -96,7 +112,8 @@ ADV_NAMES = ["tuple-count-lies", "list-count-lies", "set-count-lies", "many-tiny
              "deep-nesting", "deep-nesting-lists", "deep-nesting-dicts", "ref-out-of-range", "self-reference",
              "self-reference-in-set", "string-length-lies", "unicode-length-lies", "long-digit-count-lies", "unknown-type-codes",
              "dict-no-terminator", "code-with-garbage-fields", "stringref-out-of-range", "unhashable-in-set",
-             "null-in-odd-places", "float-text-garbage"]
+             "null-in-odd-places", "float-text-garbage", "list-containing-itself", "dict-containing-itself", "tuple-dag",
+             "tuple-dag-in-set", "tuple-dag-as-dict-key"]
 
 
 class C11:
@@ -157,7 +174,7 @@ class C11:
             st.tuples(st.just("trunc"), st.integers(0, 2000)),
         ).map(list)
         big = [10 ** 4, 30000, 65000] if ctx.tier == "quick" else [10 ** 4, 65000, 10 ** 5, 3 * 10 ** 5]
-        depth = [100, 999, 1001, 5000, 10 ** 4] if ctx.tier == "quick" else [999, 1001, 10 ** 4, 10 ** 5]
+        depth = [20, 48, 100, 999, 1001, 5000, 10 ** 4] if ctx.tier == "quick" else [30, 48, 60, 999, 1001, 10 ** 4, 10 ** 5]
         counts = [2 ** 31 - 1, 2 ** 31, 2 ** 32 - 1, 10 ** 6, 65536, 255, 0, 1]
         adv = st.tuples(st.sampled_from(ADV_NAMES), st.sampled_from(ADV_VERSIONS), st.sampled_from(counts),
                         st.one_of(st.integers(0, 40), st.sampled_from(big), st.sampled_from(depth)),
